@@ -211,3 +211,28 @@ pub fn near_miss_doc(rng: &mut Rng) -> String {
         _ => format!("k = {v}\n"),
     }
 }
+
+/// the name under which a `Datetime` travels through serde; as a key of a document it is an
+/// ordinary key
+pub const DATETIME_MARKER: &str = "$__toml_private_datetime";
+
+/// valid documents that use the marker as an ordinary key, in every position a key can have
+pub fn marker_docs() -> Vec<String> {
+    let m = DATETIME_MARKER;
+    vec![
+        format!("\"{m}\" = \"2000-01-01\"\n"),
+        format!("\"{m}\" = \"x\"\n"),
+        format!("'{m}' = '2000-01-01'\n"),
+        format!("[a]\n\"{m}\" = \"x\"\n"),
+        format!("[a]\n\"{m}\" = \"1979-05-27\"\nb = 1\n"),
+        format!("t = {{ \"{m}\" = \"2000-01-01\", b = 2 }}\n"),
+        format!("t = {{ \"{m}\" = 1, b = 2 }}\n"),
+        format!("t = {{ b = 2, \"{m}\" = \"2000-01-01\" }}\n"),
+        format!("[\"{m}\"]\nx = 1\n"),
+        format!("a = [{{ \"{m}\" = \"07:32:00\" }}]\n"),
+        format!("[[x]]\n\"{m}\" = \"1979-05-27T07:32:00Z\"\n"),
+        format!("a.\"{m}\" = \"2000-01-01\"\n"),
+        format!("b = 1\n\"{m}\" = \"2000-01-01\"\n"),
+        format!("\"{m}\" = 1979-05-27\n"),
+    ]
+}
